@@ -8,6 +8,7 @@ from .common import TOL
 
 PROPERTY = "C14"
 LEVEL = "exploration"
+SUPPORTS_V4 = True  # scenarios with "v4": true run over IPv4-mapped addresses (see common.set_family)
 RUNS = {"quick": 3500, "thorough": 40000}
 RULE = ("seeded scenarios: a real client submits 3-15 requests (CON/NON mix, by URI) to 2-3 scripted peers in short "
         "intervals; per request the peer reacts with ACK, ACK + later separate response, piggybacked response, RST or "
@@ -59,7 +60,7 @@ def gen(r, tier):
                         "errno": r.choice([111, 113])})
     ops.sort(key=lambda o: o["t"])
     return {"npeers": npeers, "ops": ops, "senderr": round(r.uniform(0.02, 0.15), 3) if r.chance(0.12) else 0,
-            "same_host": r.chance(0.3)}
+            "same_host": r.chance(0.3), "v4": r.chance(0.15)}
 
 
 def systematic(tier):
